@@ -76,7 +76,7 @@ def run_case(case):
     if struct == 'one_per_class':
         n = ku
     else:
-        n = int(rng.choice([ku + 1, 2 * ku + 3, 40, 150, 600]))
+        n = gen.pick_n(rng, [ku + 1, 2 * ku + 3, 40, 150, 600])
     ddt = 'int32' if (np.max(used) > 32000) else subjects.DATA_DTYPES_LUT[int(rng.integers(6))]
     if np.max(used) > np.iinfo(ddt).max:
         ddt = 'int32'
